@@ -24,7 +24,8 @@ pub struct Circuit { pub witness_count: u32, pub public_flat_len: usize, pub pri
 /// abstract identity of a circuit / a configuration
 pub struct Cid { pub witness_count: u32, pub public_flat_len: usize, pub private_flat_len: usize, pub ops: Seq<Op>, pub body: int }
 pub open spec fn cid(c: &Circuit) -> Cid { Cid { witness_count: c.witness_count, public_flat_len: c.public_flat_len, private_flat_len: c.private_flat_len, ops: c.ops@, body: c.body@ } }
-pub struct Cfg { pub id: Ghost<int> }
+pub struct Cfg { pub id: Ghost<int>, pub zk: usize }
+impl Cfg { pub fn is_zk(&self) -> (r: usize) ensures r == self.zk { self.zk } }
 pub struct Backend { pub _p: () }
 pub struct RecInput { pub _p: () }
 pub struct VResult { pub _p: () }
@@ -37,12 +38,12 @@ pub struct ProveError { pub _p: () }
 /// execution traces of one run: tagged with the circuit that was run
 pub struct Traces { pub of: Ghost<Cid> }
 /// committed preprocessed data + AIRs: tagged with the circuit they were derived from
-pub struct CircuitProverData { pub for_circuit: Ghost<Cid>, pub common: CommonData }
+pub struct CircuitProverData { pub for_circuit: Ghost<Cid>, pub cfg: Ghost<int>, pub ext_degrees: Ghost<Seq<usize>>, pub common: CommonData }
 impl CircuitProverData { pub fn common_data(&self) -> (r: &CommonData) ensures *r == self.common { &self.common } }
 /// Rc<CircuitProverData> (the reference count is erased)
 pub type RcData = CircuitProverData;
 #[verifier::external_body]
-pub fn rc_clone(d: &RcData) -> (r: RcData) ensures r.for_circuit@ == d.for_circuit@, r.common == d.common { unimplemented!() }
+pub fn rc_clone(d: &RcData) -> (r: RcData) ensures r.for_circuit@ == d.for_circuit@, r.common == d.common, r.cfg@ == d.cfg@, r.ext_degrees@ == d.ext_degrees@ { unimplemented!() }
 pub fn rc_new(d: CircuitProverData) -> (r: RcData) ensures r == d { d }
 /// a batch proof: tagged with the circuit whose traces it proves, the circuit whose preprocessed commitment it carries, and the prover's config
 pub struct BatchStarkProof { pub traces_of: Ghost<Cid>, pub prep_of: Ghost<Cid>, pub cfg: Ghost<int>, pub packing: Ghost<int>, pub proof: BatchProofStub, pub stark_common: CommonData }
@@ -100,10 +101,18 @@ pub fn run_layer_circuit(prev: &RecInput, verification_circuit: &Circuit, verifi
 #[verifier::external_body]
 pub fn shape_err<T>(r: Result<T, ProveError>) -> (o: Result<T, VerificationError>) ensures r is Ok == o is Ok, r matches Ok(v) ==> o == Ok::<T, VerificationError>(v)
 { unimplemented!() }
-pub struct AirsDegrees { pub of: Ghost<Cid>, pub packing: Ghost<int> }
+pub struct AirsDegrees { pub of: Ghost<Cid>, pub packing: Ghost<int>, pub degrees: Ghost<Seq<usize>> }
+/// the (base) trace degree of every table of a circuit under given params
+pub uninterp spec fn table_degrees(c: Cid, params: int) -> Seq<usize>;
+/// the degrees the tables are committed with: one more bit under a hiding (ZK) configuration
+pub open spec fn ext_of(d: Seq<usize>, zk: usize) -> Seq<usize> { Seq::new(d.len(), |i: int| (d[i] + zk) as usize) }
+/// preparation data as the uncached path builds it for this circuit, configuration and params
+pub open spec fn prepared_like_uncached(d: &RcData, c: &Circuit, config: &Cfg, params: &ProveNextLayerParams) -> bool {
+    d.for_circuit@ == cid(c) && d.cfg@ == config.id@ && d.ext_degrees@ == ext_of(table_degrees(cid(c), params.id@), config.zk)
+}
 pub struct Columns { pub of: Ghost<Cid> }
 pub struct Airs { pub of: Ghost<Cid>, pub packing: Ghost<int> }
-pub struct ProverData { pub of: Ghost<Cid>, pub cfg: Ghost<int> }
+pub struct ProverData { pub of: Ghost<Cid>, pub cfg: Ghost<int>, pub degrees: Ghost<Seq<usize>> }
 pub struct TablePacking { pub _p: () }
 #[derive(Clone, Copy)]
 pub struct ConstraintProfile { pub _p: () }
@@ -121,19 +130,19 @@ impl Backend {
 /// get_airs_and_degrees_with_prep(circuit, &params.table_packing, .., params.constraint_profile): AIRs and preprocessed columns OF THIS CIRCUIT under THESE params
 #[verifier::external_body]
 pub fn get_airs_and_degrees_with_prep(c: &Circuit, params: &ProveNextLayerParams, pre: &Plugins, airb: &Plugins) -> (r: Result<(AirsDegrees, Columns, Columns), VerificationError>)
-    ensures r matches Ok(t) ==> t.0.of@ == cid(c) && t.0.packing@ == params.id@ && t.1.of@ == cid(c) && t.2.of@ == cid(c)
+    ensures r matches Ok(t) ==> t.0.of@ == cid(c) && t.0.packing@ == params.id@ && t.1.of@ == cid(c) && t.2.of@ == cid(c) && t.0.degrees@ == table_degrees(cid(c), params.id@)
 { unimplemented!() }
 #[verifier::external_body]
-pub fn unzip_(a: AirsDegrees) -> (r: (Airs, Vec<usize>)) ensures r.0.of@ == a.of@ && r.0.packing@ == a.packing@ { unimplemented!() }
+pub fn unzip_(a: AirsDegrees) -> (r: (Airs, Vec<usize>)) ensures r.0.of@ == a.of@ && r.0.packing@ == a.packing@ && r.1@ == a.degrees@ { unimplemented!() }
 #[verifier::external_body]
-pub fn ext_degrees_(d: &Vec<usize>, config: &Cfg) -> Vec<usize> { unimplemented!() }
+pub fn ext_degrees_(d: &Vec<usize>, config: &Cfg) -> (r: Vec<usize>) ensures r@ == ext_of(d@, config.zk) { unimplemented!() }
 impl ProverData {
     #[verifier::external_body]
-    pub fn from_airs_and_degrees(config: &Cfg, airs: &Airs, ext: &Vec<usize>) -> (r: ProverData) ensures r.of@ == airs.of@ && r.cfg@ == config.id@ { unimplemented!() }
+    pub fn from_airs_and_degrees(config: &Cfg, airs: &Airs, ext: &Vec<usize>) -> (r: ProverData) ensures r.of@ == airs.of@ && r.cfg@ == config.id@ && r.degrees@ == ext@ { unimplemented!() }
 }
 impl CircuitProverData {
     #[verifier::external_body]
-    pub fn new(pd: ProverData, prim: Columns, nonprim: Columns) -> (r: CircuitProverData) ensures r.for_circuit@ == pd.of@ { unimplemented!() }
+    pub fn new(pd: ProverData, prim: Columns, nonprim: Columns) -> (r: CircuitProverData) ensures r.for_circuit@ == pd.of@ && r.cfg@ == pd.cfg@ && r.ext_degrees@ == pd.degrees@ { unimplemented!() }
 }
 /// build_layer_prover(config, &params.table_packing, params.constraint_profile, provers): a prover for THIS config and THESE params
 #[verifier::external_body]
@@ -167,6 +176,17 @@ def unchain_guard(f):
     return f
 
 
+def prep_rewrites(f):
+    """the preparation idiom shared by the four layer provers and build_next_layer_prep (R6/R11, each applies where the idiom occurs)"""
+    f.rewrite_re('R11', r'get_airs_and_degrees_with_prep\(\s*verification_circuit,\s*&params\.table_packing,\s*&preprocessors,\s*&air_builders,\s*params\.constraint_profile,?\s*\)\s*\.map_err\(VerificationError::Circuit\)\?',
+                 'get_airs_and_degrees_with_prep(verification_circuit, params, &preprocessors, &air_builders)?', min_count=0, flags_dotall=True)
+    f.rewrite_re('R6', r'let \(airs, degrees\): \(Vec<_>, Vec<\w+>\) = airs_degrees\.into_iter\(\)\.unzip\(\);', 'let (airs, degrees) = unzip_(airs_degrees);', min_count=0)
+    f.rewrite_re('R6', r'let (\w+): Vec<usize> = degrees\.iter\(\)\.map\(\|&d\| d \+ config\.is_zk\(\)\)\.collect\(\);', r'let \1: Vec<usize> = ext_degrees_(&degrees, config);', min_count=0)
+    f.rewrite_re('R11', r'build_layer_prover\(\s*config,\s*&params\.table_packing,\s*params\.constraint_profile,\s*', 'build_layer_prover(config, params, ', min_count=0, flags_dotall=True)
+    f.rewrite_re('R11', r'backend\.non_primitive_provers\(D\)', 'backend.non_primitive_provers()', min_count=0)
+    return f
+
+
 def build():
     u = Unit('cache', ['C17'])
     u.rlimit = 60
@@ -188,7 +208,7 @@ def build():
         f.rewrite_re('R8', r'\.map_err\(\|e\| proof_shape_err\(&e\.to_string\(\)\)\)', '.shape_()', min_count=0)
         f.rewrite_re('R8', r'(\w+(?:\s*\.\s*\w+)*\s*\.\s*prove_all_tables\([^;]*?\))\s*\.shape_\(\)', r'shape_err(\1)', flags_dotall=True)
         f.rewrite_re('R11', r'Rc::clone\(&([\w.]+)\)', r'rc_clone(&\1)', min_count=0)
-        f.rewrite_re('R11', r'Rc::new\((\w+)\)', r'rc_new(\1)', min_count=0)
+        f.rewrite_re('R11', r'Rc::new\(', 'rc_new(', min_count=0)
         return f
 
     # ---------------------------------------------------------------- aggregation: the guarded hit block
@@ -219,11 +239,7 @@ def build():
                         'params: &ProveNextLayerParams, prep_cache_present: bool, prep_cache: &mut Option<AggregationPrepCache>, current_fp: AggregationCircuitFingerprint) -> Result<RecursionOutput, VerificationError>', sliced=True)
     fill.rewrite_re('R11', r'<B as PcsRecursionBackend<SC, A\d, D>>::(\w+)\(backend(?:, D)?\)', r'backend.\1()', min_count=3)
     common(fill)
-    fill.rewrite_re('R11', r'get_airs_and_degrees_with_prep\(\s*verification_circuit,\s*&params\.table_packing,\s*&preprocessors,\s*&air_builders,\s*params\.constraint_profile,?\s*\)\s*\.map_err\(VerificationError::Circuit\)\?',
-                    'get_airs_and_degrees_with_prep(verification_circuit, params, &preprocessors, &air_builders)?', min_count=1, flags_dotall=True)
-    fill.rewrite_re('R6', r'let \(airs, degrees\): \(Vec<_>, Vec<_>\) = airs_degrees\.into_iter\(\)\.unzip\(\);', 'let (airs, degrees) = unzip_(airs_degrees);', min_count=1)
-    fill.rewrite_re('R6', r'let ext_degrees: Vec<usize> = degrees\.iter\(\)\.map\(\|&d\| d \+ config\.is_zk\(\)\)\.collect\(\);', 'let ext_degrees: Vec<usize> = ext_degrees_(&degrees, config);', min_count=1)
-    fill.rewrite_re('R11', r'build_layer_prover\(\s*config,\s*&params\.table_packing,\s*params\.constraint_profile,\s*', 'build_layer_prover(config, params, ', min_count=0, flags_dotall=True)
+    prep_rewrites(fill)
     fill.rewrite_re('R11', r'if let Some\(ref mut cache_slot\) = prep_cache \{', 'if prep_cache_present { let cache_slot = &mut *prep_cache;', min_count=1)
     fill.rewrite_re('R11', r'\*\*cache_slot = ', '*cache_slot = ', min_count=1)
     # R6 (general): `OPT_REF_MUT.as_mut().and_then(|s| s.take())` on the encoded slot
@@ -232,7 +248,7 @@ def build():
     fill.ensures('slot_invariant', 'slot_inv(*final(prep_cache))')
     fill.ensures('slot_filled_for_this_circuit', 'ret is Ok && prep_cache_present ==> (*final(prep_cache) matches Some(c) && c.circuit_prover_data.for_circuit@ == cid(verification_circuit) && c.prover.cfg@ == config.id@ && c.prover.packing@ == params.id@)')
     fill.ensures('slot_untouched_without_cache', '!prep_cache_present ==> *final(prep_cache) == *old(prep_cache)')
-    fill.ensures('a_miss_is_a_full_recompute_for_this_call', 'ret matches Ok(out) ==> coherent(&out, verification_circuit, config) && fresh(&out, params)')
+    fill.ensures('a_miss_is_a_full_recompute_for_this_call', 'ret matches Ok(out) ==> coherent(&out, verification_circuit, config) && fresh(&out, params) && prepared_like_uncached(&out.1, verification_circuit, config, params)')
 
     # ---------------------------------------------------------------- next layer: the unguarded hit block
     nx = u.extract(R, '', 'prove_next_layer', 'prove_next_layer[cache_hit_prefix]')
@@ -254,6 +270,20 @@ def build():
             assert(cached.prover.cfg@ == config.id@); // @@A:H_next_layer_cache_same_config
         }''', nth=0)
 
+    # ---------------------------------------------------------------- build_next_layer_prep (whole) and the uncached path of prove_next_layer: the SAME preparation
+    bp = u.extract(R, '', 'build_next_layer_prep', 'build_next_layer_prep')
+    bp.set_sig('R11', 'fn build_next_layer_prep(verification_circuit: &Circuit, config: &Cfg, backend: &Backend, params: &ProveNextLayerParams) -> Result<NextLayerPrepCache, VerificationError>')
+    common(bp)
+    prep_rewrites(bp)
+    bp.ensures('cached_preparation_is_the_uncached_preparation', 'ret matches Ok(c) ==> prepared_like_uncached(&c.circuit_prover_data, verification_circuit, config, params) && c.prover.cfg@ == config.id@ && c.prover.packing@ == params.id@')
+    nm = u.extract(R, '', 'prove_next_layer', 'prove_next_layer[miss_path]')
+    nm.drop_prefix_before('let (airs_degrees, primitive_columns, non_primitive_columns) =', 'prefix: the unguarded cache-hit block (prefix slice)')
+    nm.rewrite_re('R13', r'let traces = \{.*?runner\.run\(\)\.map_err\(VerificationError::Circuit\)\?\s*\};', 'let traces = run_layer_circuit(prev, verification_circuit, verifier_result, config, backend)?;', min_count=0, flags_dotall=True)
+    nm.set_sig('R11', 'fn prove_next_layer_miss(prev: &RecInput, verification_circuit: &Circuit, verifier_result: &VResult, config: &Cfg, backend: &Backend, params: &ProveNextLayerParams) -> Result<RecursionOutput, VerificationError>', sliced=True)
+    common(nm)
+    prep_rewrites(nm)
+    nm.ensures('uncached_layer_is_prepared_for_this_call', 'ret matches Ok(out) ==> coherent(&out, verification_circuit, config) && fresh(&out, params) && prepared_like_uncached(&out.1, verification_circuit, config, params)')
+
     # ---------------------------------------------------------------- RecursionOutput::into_recursion_input (output of one layer -> input of the next)
     ir = u.extract(R, r'impl<SC> RecursionOutput<SC>', 'into_recursion_input', 'RecursionOutput::into_recursion_input')
     ir.set_sig('R11', "fn into_recursion_input(&self) -> RecursionInput<'_>")
@@ -262,7 +292,7 @@ def build():
                '''ret matches RecursionInput::BatchStark { proof, common_data, table_public_inputs } && *proof == self.0 && *common_data == self.0.stark_common
                 && table_public_inputs@.len() == self.0.proof.opened_values.instances@.len() && forall|i: int| 0 <= i < table_public_inputs@.len() ==> (#[trigger] table_public_inputs@[i])@.len() == 0''')
     u.text('verus! {')
-    for f in (fp, hit, fill, nx):
+    for f in (fp, hit, fill, nx, bp, nm):
         u.emit(f)
     u.text('impl RecursionOutput {')
     u.emit(ir)
